@@ -1188,6 +1188,11 @@ pub fn run_case(case: &str) -> Option<String> {
             let is_k = f[0] == "K";
             let mut parts: Vec<String> = Vec::new();
             let mut met = false;
+            // did the LAST attempt miss its window for a reason of the environment (frames late, release
+            // too early, scenario could not start)?  Only then the scenario is "not run"; a K attempt whose
+            // frames were all in time and whose connection did not end (or ended during the release) after
+            // the longest hold is the scenario's last word and is judged as such.
+            let mut last_late = true;
             let mut last_err = "window-missed".to_string();
             for attempt in 0..3u64 {
                 let r = if is_k {
@@ -1203,17 +1208,21 @@ pub fn run_case(case: &str) -> Option<String> {
                         let rows = h.split(',').any(|t| t.starts_with('d') && t.contains(".r"));
                         let again = late || (is_k && num(2) > 1024 && (!closed || rows));
                         parts.push(h);
+                        last_late = late;
                         if !again {
                             met = true;
                             break;
                         }
                     }
-                    Err(e) => last_err = e,
+                    Err(e) => {
+                        last_err = e;
+                        last_late = true;
+                    }
                 }
             }
             if parts.is_empty() {
                 Err(last_err)
-            } else if met {
+            } else if met || !last_late {
                 Ok(parts.join(" NEXT "))
             } else {
                 Ok(format!("{} NEXT setup-error {}", parts.join(" NEXT "), last_err.replace(' ', "_")))
